@@ -57,7 +57,12 @@ Theorem c14_shuffle_total :
   forall (St A : Type) (nxt : St -> option (St * Z)) (st : St) (v : list A), (forall s, nxt s <> None) -> Z.of_nat (length v) <= 2 ^ 64 -> shuffle nxt st v <> None.
 Proof. exact @shuffle_total. Qed.
 
-(** (d) PARTIAL (slices of length <= 6, by enumeration of the index choices): every order of [0..n) is produced by some sequence of n-1 raw words. Missing: arbitrary n *)
+(** (d) Fisher-Yates is surjective, EVERY length and element type: every rearrangement of the slice is produced by some sequence of len-1 raw words (each a u64) *)
+Theorem c14_shuffle_reaches_all :
+  forall (A : Type) (v p : list A), Permutation p v -> Z.of_nat (length v) <= 2 ^ 64 -> exists rs, length rs = (length v - 1)%nat /\ Forall (fun r => 0 <= r < 2 ^ 64) rs /\ shuffle_script rs v = Some p.
+Proof. exact @shuffle_reaches_all_gen. Qed.
+
+(** (d) PARTIAL (slices of length <= 6, by enumeration of the index choices): every order of [0..n) is produced by some sequence of n-1 raw words: an independent computational re-check of c14_shuffle_reaches_all on the enumerated scripts *)
 Theorem c14_shuffle_reaches_all_partial :
   forall (n : nat) (p : list Z), (n <= 6)%nat -> Permutation p (zseq (N.of_nat n)) -> exists rs, length rs = (n - 1)%nat /\ Forall (fun r => 0 <= r < 2 ^ 64) rs /\ shuffle_script rs (zseq (N.of_nat n)) = Some p.
 Proof. exact shuffle_reaches_all. Qed.
